@@ -49,5 +49,7 @@ PROPERTIES
   Act_X02_BlockedUntouched
   Act_X02_ModuleOnlyGifts
   Act_X02_DonateFrame
+  Act_X02_RegistryStable
+  Act_C02_PoolFresh
   Act_X02_OneSidedReserve
 CHECK_DEADLOCK FALSE
